@@ -466,6 +466,12 @@ def instantiate_external(ex, name, args, kwargs, node):
     if name == 'collections.OrderedDict':
         if not args and not kwargs:
             return ex.alloc(DictCell({}))
+        if len(args) == 1 and not kwargs:
+            a0 = ex.res(args[0])
+            if isinstance(a0, VPtr) and isinstance(ex.cell(a0), ListCell) and ex.iter_concrete(a0, node) is None:
+                # OrderedDict(list of pairs of symbolic length): a dictionary object whose content is not modelled
+                ex.used_assumptions.add('A-BUILTIN: OrderedDict(pairs) is a dictionary object (content not modelled)')
+                return VOpaque(z3.Const(ex.fresh_name('ordereddict'), RefSort), 'OrderedDict')
     if name == 'object':
         return ex.alloc(ObjCell('object', {}))
     ex.limit(f'instantiation of external class {name}', node)
